@@ -177,13 +177,16 @@ def build(model, nports, streams, gaps, ev, stall, latency, patterns, dws=None):
         s.mem = MemMasterIfcCL(ptypes[0][0], ptypes[0][1], s.recv, s.recv_rdy)
         s.msgs, s.gaps, s.ev = msgs, gaps, ev
         s.idx = 0; s.wait = gaps[0] if gaps else 0; s.now_ready = True; s.got = []
+        s.cur = ptypes[0][0]()          # ONE request object, refilled for every request (also while the previous one is in flight)
         @update_once
         def up_src():
           if s.idx < len(s.msgs) and not s.reset:
+            s.cur @= s.msgs[s.idx]
             if s.wait > 0: s.wait -= 1
             elif s.mem.req.rdy():
               s.ev.append(("acc", 0, s.idx))
-              s.mem.req(s.msgs[s.idx]); s.idx += 1
+              s.mem.req(s.cur); s.idx += 1
+              if s.idx < len(s.msgs): s.cur @= s.msgs[s.idx]
               s.wait = s.gaps[s.idx] if s.idx < len(s.gaps) else 0
       def done(s): return s.idx >= len(s.msgs)
       def line_trace(s): return ""
